@@ -37,6 +37,19 @@ pub fn check_pool(bank: &crate::svm::Bank, pool_key: &solana_program::pubkey::Pu
             n_in_range += 1;
         }
     }
+    // the tick the sums are taken at is the tick of the stored price: price(tick) <= sqrt_price <= price(tick + 1),
+    // the upper end only in the state a downward crossing leaves behind (price exactly on the crossed tick)
+    {
+        use whirlpool::math::sqrt_price_from_tick_index as price_of;
+        let t = pool.tick_current_index;
+        let in_bounds = (codec::MIN_TICK_INDEX - 1..=codec::MAX_TICK_INDEX).contains(&t);
+        let lower_ok = t < codec::MIN_TICK_INDEX || price_of(t) <= pool.sqrt_price;
+        let upper_ok = t >= codec::MAX_TICK_INDEX || pool.sqrt_price <= price_of(t + 1);
+        acc.count("tick_price_consistency_checks");
+        if !in_bounds || !lower_ok || !upper_ok {
+            out.push(("current_tick_not_the_tick_of_the_price".to_string(), format!("tick_current_index {t} but sqrt_price {} (tick of that price: {})", pool.sqrt_price, whirlpool::math::tick_index_from_sqrt_price(&pool.sqrt_price))));
+        }
+    }
     acc.count("pool_liquidity_checks");
     if in_range > 0 {
         acc.count("pool_liquidity_checks_nonzero");
